@@ -5,12 +5,13 @@ import struct
 import subprocess
 
 ID = "C07"
-LEVEL = "other"
+LEVEL = "proof"
 from lib.core import existing_modules
 LEAN_MODULES = ["Sonic.Props.C07"]
 REQUIRED_THEOREMS = ["Sonic.Props.C07." + n for n in ["C07_tables", "C07_exponents", "C07_checker_sound", "C07_inInterval", "C07_zero", "C07_integer_path",
                                                          "C07_format", "C07_decimal_path", "C07_output", "C07_validCQ", "C07_schubfach", "C07_shortest",
-                                                         "C07_roundTrips_iff_rne", "C07_roundTrips_iff_rne_signed", "C07_chk_reparse", "C07_chk_reparse_signed"]]
+                                                         "C07_roundTrips_iff_rne", "C07_roundTrips_iff_rne_signed", "C07_chk_reparse", "C07_chk_reparse_signed",
+                                                         "C07_fast_chk", "C07_print_shortest_and_reparses"]]
 CONFIGS = [("avx2", "prod"), ("sse", "prod"), ("avx2", "san")]
 CONFIGS_THOROUGH = CONFIGS + [("dyn", "prod")]
 RULE = ("bit patterns: for each of the 2046 finite binary exponents the smallest significand (irregular boundary), +1, the largest, and "
@@ -29,10 +30,12 @@ EXPLANATION = ("Proved in Lean for ALL doubles: every row of the power-of-ten ta
 ASSUMPTIONS = ["__uint128_t multiplication is exact (modelled as Nat product mod 2^128)",
                "the model of ftoa.h is tied to the compiled code by correspondence (bytes, extent) on the generated bit patterns"]
 TRUSTED = ["the decidable checker Spec.Shortest.chk (proved sound) evaluated by the compiled Lean driver on each printed text (cross-check)"]
-LEVEL_TEXT = ("Machine-checked proof (Lean 4) for every double: tables, formatting, Schubfach core (C07_schubfach, C07_shortest), certificate "
-              "soundness and the link to the exact reference rounding (C07_chk_reparse). Level stays 'other' until the last lemma - the integer "
-              "fast path's output also satisfies the shortest/closest certificate (its exactness and round trip are proved: C07_integer_path) - "
-              "is integrated; that clause is validated per output by the proved-sound checker.")
+LEVEL_TEXT = ("Machine-checked proof (Lean 4) for every double: C07_print_shortest_and_reparses - for every finite non-zero bit pattern, on "
+              "both paths (integer fast path, Schubfach), the model of F64toa does not fault, prints a JSON number with a fraction or exponent of "
+              "at most 25 bytes inside the 32 reserved, denoting a decimal that satisfies the certificate (reads back as the same double, minimal "
+              "number of digits, closest among those) and that the exact reference reader Spec.Rne.round maps back to the same bits; C07_zero "
+              "and the non-finite case complete it. The model is tied to the compiled code by the correspondence run (bytes, extent) plus an "
+              "independent per-output evaluation of the proved-sound certificate.")
 LEVEL_NOTE = "Trusted: Lean kernel; standard axioms; table translator; exactness of 128-bit multiplication; correspondence run (model = compiled code)."
 TECHNIQUE = "Lean 4 proof of the Schubfach model for all doubles (kernel-checked certificates) + per-output proved-sound checker + differential correspondence"
 
